@@ -19,11 +19,13 @@
 EXTENDS QuditAlgebra, TLC, Json
 
 CONSTANTS Mode,      \* "rep" | "alg" | "act" | "obs"
-          DN,        \* set of <<d, n>>
+          DN,        \* set of <<d, n, sel1, sel2, lean>>: qudit dimension, number of qudits, ids of the
+                     \* qudit operators used by the first / second term of "rep" operators (sel2 = {}:
+                     \* single-term operators only), lean = TRUE: reduced catalogues (large systems)
           OrdSel,    \* subset of {"id", "rev", "rot"}
-          Sel1,      \* ids of the qudit operators used by the first term ("rep")
-          Sel2,      \* ids used by the second term ("rep"); {} = single-term operators only
-          MaxLaw     \* laws that need matrix products are checked for Size <= MaxLaw
+          MaxLaw,    \* laws that need matrix products are checked for Size <= MaxLaw
+          MaxRep,    \* laws of the representation are checked for Size <= MaxRep
+          MaxProd    \* matrix products are printed for Size <= MaxProd
 VARIABLE pt
 
 (* ---------------- catalogue of single-qudit operators (level names 1..4) ---------------- *)
@@ -47,7 +49,7 @@ OrdOf(d, kind) ==
     [] kind = "rev" -> [i \in 1..d |-> d + 1 - i]
     [] kind = "rot" -> [i \in 1..d |-> (i % d) + 1]
 Ords(d) == {OrdOf(d, k) : k \in OrdSel}
-Ctx(dn, o) == [d |-> dn[1], n |-> dn[2], ord |-> o]
+Ctx(dn, o) == [d |-> dn[1], n |-> dn[2], ord |-> o, lean |-> dn[5]]
 Ctxs == UNION {{Ctx(dn, o) : o \in Ords(dn[1])} : dn \in DN}
 All(c) == 0..(c.n - 1)
 
@@ -63,7 +65,7 @@ TensorOps(c, ids) == {TFrom(a, c.n, 1) : a \in [All(c) -> (ids \cap QIds(c.d)) \
 (* ---------------- mode "rep" ---------------- *)
 Coef1 == {G1, <<0, 1>>}
 Coef2 == {<<-2, 0>>, <<1, 1>>}
-RepValid(c) ==
+RepValid(c, Sel1, Sel2) ==
   LET T1 == TensorOps(c, Sel1)
       T2 == TensorOps(c, Sel2)
       one == {<< <<g, t>> >> : g \in Coef1, t \in T1}
@@ -86,7 +88,7 @@ RepSpecial(c) ==
       [m |-> "rep", c |-> c, f |-> << <<Z0, <<X0>> >>, <<G1, <<NL>> >> >>, bad |-> "none"],     \* zero coeff
       [m |-> "rep", c |-> c, f |-> << <<G1, <<X0>> >>, <<<<-1, 0>>, <<X0>> >> >>, bad |-> "none"] \* cancels
      }
-RepPts == UNION {RepValid(c) \cup RepSpecial(c) : c \in Ctxs}
+RepPts == UNION {UNION {RepValid(Ctx(dn, o), dn[3], dn[4]) \cup RepSpecial(Ctx(dn, o)) : o \in Ords(dn[1])} : dn \in DN}
 
 (* ---------------- catalogue of operators for "alg", "act", "obs" ---------------- *)
 OpSeq(c) ==
@@ -100,9 +102,9 @@ OpSeq(c) ==
             THEN << << <<G1, << <<QCat[6], {0}>> >> >>, <<<<-1, 0>>, << <<QCat[8], {n - 1}>> >> >> >> >>
             ELSE <<>>
       d4 == IF c.d >= 4 THEN << << <<<<0, 2>>, << <<QCat[7], All(c)>> >> >> >> >> ELSE <<>>
-  IN base \o d3 \o d4
+  IN IF c.lean THEN SubSeq(base, 1, 2) ELSE base \o d3 \o d4
 OpCat(c) == {OpSeq(c)[i] : i \in 1..Len(OpSeq(c))}
-Scalars == {<<2, 0>>, <<0, 1>>, <<1, -1>>, Z0}
+Scalars(c) == IF c.lean THEN {<<1, -1>>} ELSE {<<2, 0>>, <<0, 1>>, <<1, -1>>, Z0}
 
 (* Hermitian operators used as Hamiltonians *)
 HamCat(c) ==
@@ -113,7 +115,8 @@ HamCat(c) ==
       h2 == << <<<<3, 0>>, << <<QCat[4], All(c)>> >> >>, <<G1, << <<QCat[3], {n - 1}>> >> >> >>
       h3 == xs \o ns \o << <<<<5, 0>>, << <<QCat[1], {0, n - 1}>> >> >> >>
       h4 == << <<G1, << <<QCat[8], {0}>> >> >>, <<<<2, 0>>, << <<Proj(c.d), All(c)>> >> >> >>
-  IN {h1, h2} \cup (IF n >= 2 THEN {h3} ELSE {}) \cup (IF c.d >= 3 THEN {h4} ELSE {})
+  IN IF c.lean THEN (IF n >= 2 THEN {h3} ELSE {h1})
+     ELSE {h1, h2} \cup (IF n >= 2 THEN {h3} ELSE {}) \cup (IF c.d >= 3 THEN {h4} ELSE {})
 
 (* ---------------- catalogue of states ---------------- *)
 BAll(c, l) == [k \in 1..c.n |-> l]
@@ -139,7 +142,8 @@ KetCat(c) ==
                << <<b2, <<2, 0>>>>, <<lst, <<1, -2>>>>, <<a1, <<-1, 0>>>> >>,
                << <<alt, G1>>, <<aD, <<0, 1>>>>, <<b2, G1>> >> }
              \cup (IF Size(c) <= 16 THEN {dense} ELSE {})
-  IN {Dedup(k) : k \in raw}
+      lean == { << <<a1, G1>>, <<aD, G1>> >>, << <<b2, <<2, 0>>>>, <<lst, <<1, -2>>>>, <<a1, <<-1, 0>>>> >> }
+  IN {Dedup(k) : k \in (IF c.lean THEN lean ELSE raw)}
 K1(c) == << <<BAll(c, 1), G1>> >>
 K2(c) == << <<BOne(c, 1, 2, 1), G1>> >>
 K3(c) == << <<BAll(c, c.d), <<0, 1>>>> >>
@@ -149,16 +153,18 @@ K6(c) == Dedup(<< <<BAll(c, 1), G1>>, <<BAll(c, c.d), <<-1, 0>>>>, <<BOne(c, 1, 
 StateCat(c) ==
   {[kind |-> "ket", comps |-> << <<1, k>> >>] : k \in KetCat(c)}
   \cup {[kind |-> "dm", comps |-> << <<1, K5(c)>> >>],                      \* a pure state given as a matrix
-        [kind |-> "dm", comps |-> << <<1, K1(c)>>, <<1, K2(c)>> >>],        \* diagonal, weights 1/2 1/2
+        [kind |-> "dm", comps |-> << <<1, K4(c)>>, <<2, K2(c)>> >>]}        \* mixed, not diagonal
+  \cup (IF c.lean THEN {} ELSE
+       {[kind |-> "dm", comps |-> << <<1, K1(c)>>, <<1, K2(c)>> >>],        \* diagonal, weights 1/2 1/2
         [kind |-> "dm", comps |-> << <<1, K1(c)>>, <<3, K3(c)>> >>],        \* diagonal, weights 1/4 3/4
-        [kind |-> "dm", comps |-> << <<1, K4(c)>>, <<2, K2(c)>> >>],        \* not diagonal
-        [kind |-> "dm", comps |-> << <<1, K6(c)>>, <<4, K1(c)>>, <<2, K5(c)>> >>]}
-Targets(c) == <<K1(c), K3(c), K4(c), K6(c)>>
+        [kind |-> "dm", comps |-> << <<1, K6(c)>>, <<4, K1(c)>>, <<2, K5(c)>> >>]})
+Targets(c) == IF c.lean THEN <<K1(c), K6(c)>> ELSE <<K1(c), K3(c), K4(c), K6(c)>>
+Ones(c) == IF c.lean THEN {1} ELSE 1..c.d
 
-AlgPts == UNION {{[m |-> "alg", c |-> c, A |-> A, B |-> B, g |-> g] : A \in OpCat(c), B \in OpCat(c), g \in Scalars} : c \in Ctxs}
+AlgPts == UNION {{[m |-> "alg", c |-> c, A |-> A, B |-> B, g |-> g] : A \in OpCat(c), B \in OpCat(c), g \in Scalars(c)} : c \in Ctxs}
 ActPts == UNION {{[m |-> "act", c |-> c, A |-> A, st |-> st] : A \in OpCat(c), st \in StateCat(c)} : c \in Ctxs}
 ObsPts == UNION {{[m |-> "obs", c |-> c, st |-> st, H |-> H, one |-> one] :
-                    st \in StateCat(c), H \in HamCat(c), one \in 1..c.d} : c \in Ctxs}
+                    st \in StateCat(c), H \in HamCat(c), one \in Ones(c)} : c \in Ctxs}
 
 Init == pt \in (CASE Mode = "rep" -> RepPts [] Mode = "alg" -> AlgPts [] Mode = "act" -> ActPts [] Mode = "obs" -> ObsPts)
 Next == UNCHANGED pt
@@ -166,19 +172,21 @@ Spec == Init /\ [][Next]_pt
 
 (* ======================= laws of the reference ======================= *)
 (* position of an index under the identity order, given its digits are positions under c.ord *)
-Relabel(c, r) ==
+RelabelTab(c) ==
   LET dg == DigTab(c)
-  IN ISumTo([k \in 0..(c.n - 1) |-> (c.ord[dg[r][k] + 1] - 1) * Pow(c.d, c.n - 1 - k)], c.n - 1)
-IdCtx(c) == [d |-> c.d, n |-> c.n, ord |-> OrdOf(c.d, "id")]
+  IN Ev([r \in Idx(c) |->
+          ISumTo([k \in 0..(c.n - 1) |-> (c.ord[dg[r][k] + 1] - 1) * Pow(c.d, c.n - 1 - k)], c.n - 1)])
+IdCtx(c) == [d |-> c.d, n |-> c.n, ord |-> OrdOf(c.d, "id"), lean |-> c.lean]
 
 RepLaws ==
-  pt.m = "rep" /\ ValidRep(pt.c, pt.f) =>
+  pt.m = "rep" /\ ValidRep(pt.c, pt.f) /\ Size(pt.c) <= MaxRep =>
     LET c == pt.c  f == pt.f  M == OpMat(c, f)
     IN /\ \A m \in 1..Len(f) : TensorMat(c, f[m][2]) = KronTo(c, Factors(c, f[m][2]), c.n - 1)
        /\ Len(f) = 2 => M = MatAdd(c, OpMat(c, <<f[1]>>), OpMat(c, <<f[2]>>))
        /\ \A m \in 1..Len(f) : OpMat(c, <<f[m]>>) = MatScale(c, f[m][1], TensorMat(c, f[m][2]))
        /\ LET Mid == OpMat(IdCtx(c), f)
-          IN \A rs \in Idx2(c) : M[rs] = Mid[<<Relabel(c, rs[1]), Relabel(c, rs[2])>>]
+              rl == RelabelTab(c)
+          IN \A rs \in Idx2(c) : M[rs] = Mid[<<rl[rs[1]], rl[rs[2]]>>]
 
 AlgLaws ==
   pt.m = "alg" =>
@@ -209,6 +217,7 @@ ObsLaws ==
     LET c == pt.c  R == Rho(c, pt.st)  H == OpMat(c, pt.H)  den == Trace(c, R)[1]
         E == TrProd(c, R, H)
         m2 == M2Num(c, H, pt.st)
+        bt == BitsTab(c, pt.one)
     IN /\ Hermitian(c, H) /\ Hermitian(c, R) /\ den > 0
        /\ E[2] = 0
        /\ (m2 * den) - (E[1] * E[1]) >= 0                                     \* variance >= 0
@@ -217,10 +226,10 @@ ObsLaws ==
             /\ CorrNum(c, R, pt.one, i, j) = CorrNum(c, R, pt.one, j, i)
             /\ CorrNum(c, R, pt.one, i, j) = TrProd(c, R, OpMat(c, NumberOp(c, pt.one, {i, j})))[1]
             /\ CorrNum(c, R, pt.one, i, i) = OccNum(c, R, pt.one, i)
-       /\ ISumTo([b \in 0..(Pow(2, c.n) - 1) |-> BitNum(c, R, pt.one, b)], Pow(2, c.n) - 1) = den
+       /\ ISumTo([b \in 0..(Pow(2, c.n) - 1) |-> BitNum(c, R, bt, b)], Pow(2, c.n) - 1) = den
        /\ \A i \in All(c) :
             ISumTo([b \in 0..(Pow(2, c.n) - 1) |->
-                      IF ((b \div Pow(2, c.n - 1 - i)) % 2) = 1 THEN BitNum(c, R, pt.one, b) ELSE 0],
+                      IF ((b \div Pow(2, c.n - 1 - i)) % 2) = 1 THEN BitNum(c, R, bt, b) ELSE 0],
                    Pow(2, c.n) - 1) = OccNum(c, R, pt.one, i)
        /\ Size(c) <= MaxLaw => m2 = TrProd(c, R, MatMul(c, H, H))[1]          \* = Tr[rho H^2]
        /\ \A k \in 1..Len(Targets(c)) :
@@ -243,7 +252,10 @@ EmitRec ==
          LET c == pt.c  A == OpMat(c, pt.A)  B == OpMat(c, pt.B)
          IN [m |-> "alg", c |-> c, A |-> pt.A, B |-> pt.B, g |-> pt.g,
              sum |-> Sparse(c, MatAdd(c, A, B)), scaled |-> Sparse(c, MatScale(c, pt.g, A)),
-             prod |-> Sparse(c, MatMul(c, A, B))]
+             hasprod |-> Size(c) <= MaxProd,
+             prod |-> IF Size(c) <= MaxProd THEN Sparse(c, MatMul(c, A, B)) ELSE {},
+             probe |-> K6(c),                \* (A @ B) applied to a ket = A (B ket), cheap at any size
+             pv |-> SparseVec(c, ApplyVec(c, A, ApplyVec(c, B, Vec(c, K6(c)))))]
     [] pt.m = "act" ->
          LET c == pt.c  A == OpMat(c, pt.A)  R == Rho(c, pt.st)
          IN [m |-> "act", c |-> c, A |-> pt.A, st |-> pt.st,
@@ -251,12 +263,15 @@ EmitRec ==
              rho |-> Sparse(c, R),
              vec |-> IF pt.st.kind = "ket" THEN SparseVec(c, Vec(c, pt.st.comps[1][2])) ELSE {},
              avec |-> IF pt.st.kind = "ket" THEN SparseVec(c, ApplyVec(c, A, Vec(c, pt.st.comps[1][2]))) ELSE {},
-             arho |-> IF pt.st.kind = "dm" THEN Sparse(c, MatMul(c, MatMul(c, A, R), Dagger(c, A))) ELSE {},
+             hasarho |-> pt.st.kind = "dm" /\ Size(c) <= MaxProd,
+             arho |-> IF pt.st.kind = "dm" /\ Size(c) <= MaxProd
+                      THEN Sparse(c, MatMul(c, MatMul(c, A, R), Dagger(c, A))) ELSE {},
              ex |-> TrProd(c, R, A)]
     [] pt.m = "obs" ->
          LET c == pt.c  R == Rho(c, pt.st)  H == OpMat(c, pt.H)  den == Trace(c, R)[1]
              E == TrProd(c, R, H)  m2 == M2Num(c, H, pt.st)
              ops == OpSeq(c)
+             bt == BitsTab(c, pt.one)
          IN [m |-> "obs", c |-> c, st |-> pt.st, H |-> pt.H, one |-> pt.one, den |-> den,
              occ |-> [i \in 1..c.n |-> OccNum(c, R, pt.one, i - 1)],
              corr |-> [i \in 1..c.n |-> [j \in 1..c.n |-> CorrNum(c, R, pt.one, i - 1, j - 1)]],
@@ -266,6 +281,6 @@ EmitRec ==
                         <<FidNum(c, R, Vec(c, Targets(c)[k]))[1], VNorm2(c, Vec(c, Targets(c)[k]))>>],
              ox |-> ops,
              ex |-> [k \in 1..Len(ops) |-> TrProd(c, R, OpMat(c, ops[k]))],
-             bits |-> {<<b, BitNum(c, R, pt.one, b)>> : b \in {x \in 0..(Pow(2, c.n) - 1) : BitNum(c, R, pt.one, x) > 0}}]
+             bits |-> {<<b, BitNum(c, R, bt, b)>> : b \in {x \in 0..(Pow(2, c.n) - 1) : BitNum(c, R, bt, x) > 0}}]
 Emit == PrintT("PT|" \o ToJson(EmitRec))
 =============================================================================
